@@ -221,7 +221,7 @@ def main_guard(fn):
         print('INCONCLUSIVE harness failure'); sys.exit(2)
 
 # ---------------------------------------------------------------- fault text
-FAULT_RE = re.compile(rb'Program fault|Bug:|Assertion failed|ERROR: AddressSanitizer|runtime error:|Aldor runtime: storage|Storage allocation error|stack smashing|double free|corrupted')
+FAULT_RE = re.compile(rb'Program fault|Bug:|Assertion failed|ERROR: AddressSanitizer|runtime error:|Aldor runtime: storage|Storage allocation error|stack smashing|double free or corruption|malloc\(\): |free\(\): invalid|corrupted size|corrupted top size|corrupted double-linked')
 
 def fault_text(p):
     """None or a short class name when the process shows a fault/bug/assert/sanitizer report."""
@@ -273,3 +273,23 @@ def harness(ctx, name, variant='plain', extra_src=(), extra_flags=()):
     if p.rc != 0:
         raise Inconclusive('harness %s (%s) does not compile against this tree: %s' % (name, variant, (p.err or p.out)[-1500:].decode(errors='replace')))
     return out
+
+def fault_site(b, p, variant):
+    """innermost repository function of a fault on the plain build, from the hook's backtrace"""
+    blob = (p.err + p.out).decode(errors='replace')
+    m = re.search(r'ALDOR_VERIF_BT begin\n(.*?)ALDOR_VERIF_BT end', blob, re.S)
+    if not m:
+        mm = re.search(r'Bug: ([^\n]{0,60})', blob)
+        if mm: return 'bug:' + re.sub(r'[^A-Za-z]+', '-', mm.group(1))[:40]
+        mm = re.search(r'Assertion failed[^\n]*file ([\w.]+)', blob) or re.search(r'([\w.]+):\d+: [^\n]*Assertion', blob)
+        return 'assert:' + (mm.group(1) if mm else '?')
+    addrs = re.findall(r'^\S*/aldor\(\+(0x[0-9a-f]+)\)', m.group(1), re.M)
+    exe = b.aldor
+    if not addrs: return '?'
+    r = run(['addr2line', '-f', '-e', exe] + addrs[:12], timeout=60)
+    names = r.out.decode(errors='replace').split('\n')[0::2]
+    for nm in names:
+        if nm and nm not in ('compSignalHandler', 'verifBacktrace', '??', 'osFaultHandler', 'osSignalHandler') and not nm.startswith('_'):
+            return nm
+    return '?'
+
